@@ -125,18 +125,15 @@ func (d *Decimal) setString(c *Context, s string) (Condition, error) {
 	s, consumed := consumePrefix(s, "nan")
 	if consumed {
 		isNaN = true
-	}
-	s, consumed = consumePrefix(s, "snan")
-	if consumed {
+	} else if s, consumed = consumePrefix(s, "snan"); consumed {
 		isNaN = true
 		d.Form = NaNSignaling
 	}
 	if isNaN {
-		if s != "" {
-			// We ignore these digits, but must verify them.
-			_, err := strconv.ParseUint(s, 10, 64)
-			if err != nil {
-				return 0, fmt.Errorf("parse payload: %s: %w", s, err)
+		// We ignore the payload digits, but must verify them.
+		for i := 0; i < len(s); i++ {
+			if s[i] < '0' || s[i] > '9' {
+				return 0, fmt.Errorf("parse payload: %s", s)
 			}
 		}
 		return 0, nil
